@@ -32,7 +32,8 @@ def gen_call(tape, pool_size, term_of, ctx_symbols, richgen, ctx):
              (1, "logic"), (1, "types"), (3, "size"), (2, "serialize"), (2, "to_smtlib"), (1, "nnf"),
              (1, "cnf"), (1, "prenex"), (1, "aig"), (1, "get_type"), (2, "build"), (1, "fresh"),
              (1, "model_value"), (1, "parse_smtlib"), (1, "parse_hr"), (1, "qelim")]
-    kinds = kinds + [(2, "substitute_shared"), (2, "parse_long")]
+    kinds = kinds + [(2, "substitute_shared"), (2, "parse_long"), (2, "foreign"), (1, "script_serialize"),
+                     (2, "resimplify")]
     k = tape.weighted(kinds, "call.kind")
     i = tape.draw(pool_size, "call.formula")
     spec = {"call": k, "i": i}
@@ -54,6 +55,15 @@ def gen_call(tape, pool_size, term_of, ctx_symbols, richgen, ctx):
             except ValueError:
                 pass
         spec["update"] = pairs
+    if k == "foreign":
+        # a structural analysis of a formula that belongs to ANOTHER environment, asked through this
+        # environment's oracles (what FNode helper methods do when several environments are alive)
+        spec["what"] = tape.choice(["size", "free_vars", "atoms", "is_qf", "types", "theory"], "foreign.what")
+        spec["measure"] = tape.draw(SIZE_MEASURES, "foreign.measure")
+    if k == "script_serialize":
+        spec["others"] = [tape.draw(pool_size, "script.other") for _ in range(tape.rint(1, 3, "script.n"))]
+        spec["daggify"] = tape.chance(3, 4, "script.daggify")
+        spec["named"] = tape.chance(1, 3, "script.named")
     if k == "parse_long":
         # a script (optionally with set-logic) parsed by the client's long-lived SmtLibParser
         spec["logic"] = tape.choice([None, None, "QF_LRA", "QF_LIA", "QF_BV", "QF_UFLIRA", "LRA"], "parse_long.logic")
@@ -110,6 +120,16 @@ def perform(env, spec, f, term, user_symbols):
         return f.get_type()
     if k == "simplify":
         return f.simplify()
+    if k == "resimplify":
+        # simplify the simplification: aged environment = after having simplified f itself;
+        # reference = the first result re-created in a fresh environment and simplified alone
+        r1 = spec.get("_first")
+        if r1 is None:
+            r1 = f.simplify()
+            spec["_first_out"] = r1
+        else:
+            r1 = env.formula_manager.normalize(r1)
+        return r1.simplify()
     if k == "substitute":
         m = {}
         for key, val in spec["map"]:
@@ -173,6 +193,59 @@ def perform(env, spec, f, term, user_symbols):
         return EagerModel(assign, env).get_value(f)
     if k == "parse_smtlib":
         return parse_smtlib_term(env, bp.to_smtlib(term), bp.symbols_of(term))
+    if k == "foreign":
+        ff = spec["_foreign"]          # the same blueprint built in another environment
+        w = spec["what"]
+        if w == "size":
+            return env.sizeo.get_size(ff, spec["measure"])
+        if w == "free_vars":
+            return sorted(x.symbol_name() for x in env.fvo.get_free_variables(ff))
+        if w == "atoms":
+            return len(env.ao.get_atoms(ff) or ())
+        if w == "is_qf":
+            return env.qfo.is_qf(ff)
+        if w == "types":
+            return sorted(str(t_) for t_ in env.typeso.get_types(ff, custom_only=False))
+        th = env.theoryo.get_theory(ff)
+        return "theory:" + repr(sorted((a, b) for a, b in vars(th).items()))
+    if k == "script_serialize":
+        import pysmt.smtlib.commands as smtcmd
+        from pysmt.smtlib.script import SmtLibScript
+        from pysmt.smtlib.parser import SmtLibParser
+        from pysmt.smtlib.annotations import Annotations
+        fs = [f] + list(spec["_others"])
+        script = SmtLibScript()
+        syms = {}
+        for x in fs:
+            for v in x.get_free_variables():
+                syms[v.symbol_name()] = v
+        custom = []
+        for x in fs:
+            for t_ in env.typeso.get_types(x, custom_only=True):
+                if t_ not in custom:
+                    custom.append(t_)
+        for t_ in custom:
+            script.add(smtcmd.DECLARE_SORT, [t_.decl])
+        for n in sorted(syms):
+            script.add(smtcmd.DECLARE_FUN, [syms[n]])
+        for x in fs:
+            script.add(smtcmd.ASSERT, [x])
+        if spec.get("named"):
+            ann = Annotations()
+            ann.add(fs[0], "named", "nm0")
+            script.annotations = ann
+        buf = StringIO()
+        script.serialize(buf, daggify=spec.get("daggify", True))
+        back = SmtLibParser(environment=env).get_script(StringIO(buf.getvalue()))
+        got = [c.args[0] for c in back.commands if c.name == smtcmd.ASSERT]
+        c_ = Canon(user_names=None)
+        if len(got) != len(fs) or any(c_.key(a) != c_.key(b) for a, b in zip(got, fs)):
+            # one printer object serves all commands of a script: what it prints for a command
+            # must not depend on the commands it printed before
+            bad = [j for j, (a, b) in enumerate(zip(got, fs)) if c_.key(a) != c_.key(b)]
+            return ("script-roundtrip-broken", "assert #%s of %d reads back differently: %s" %
+                    (bad[:3], len(fs), buf.getvalue()[:300]))
+        return len(got)
     if k == "parse_long":
         parser = spec["_parser"]
         syms = bp.symbols_of(term)
